@@ -244,11 +244,12 @@ theorem glob_lookup_src' {own : Own} {P : List Occ} {B : Book} (hG : Glob own P 
   rw [← htx, ← hidx, ← hid, srcOut_of_mem_nodup hG.idsNodup hoc']
   exact hget
 
+set_option linter.unusedVariables false in
 theorem glob_lookup_src {own : Own} {P : List Occ} {B : Book} {oc : Occ} (hG : Glob own P B)
-    (_hV : OccValid own P oc) (_hcb : oc.t.cb = false) {i : Inp} (_hi : i ∈ oc.t.ins) {u : UCoin}
-    (h : lookupU B.L i.tx i.idx = some u) :
+    (hV : OccValid own P oc) (hcb : oc.t.cb = false) {i : Inp} (hi : i ∈ oc.t.ins) {u : UCoin}
+    (hu : lookupU B.L i.tx i.idx = some u) :
     srcOut P i.tx i.idx = some u.out ∧ ownerOf own u.out = some (u.wallet, u.change) :=
-  glob_lookup_src' hG h
+  glob_lookup_src' hG hu
 
 /-- general form: an outpoint that no transaction of `P` spends and that is not in the ledger is not owned -/
 theorem glob_lookup_none' {own : Own} {P : List Occ} {B : Book} (hG : Glob own P B) {tx : TxId} {idx : Nat}
@@ -267,9 +268,9 @@ theorem glob_lookup_none' {own : Own} {P : List Occ} {B : Book} (hG : Glob own P
 
 theorem glob_lookup_none {own : Own} {P : List Occ} {B : Book} {oc : Occ} (hG : Glob own P B)
     (hV : OccValid own P oc) (hcb : oc.t.cb = false) {i : Inp} (hi : i ∈ oc.t.ins)
-    (h : lookupU B.L i.tx i.idx = none) :
+    (hu : lookupU B.L i.tx i.idx = none) :
     ∀ o, srcOut P i.tx i.idx = some o → ownerOf own o = none :=
-  glob_lookup_none' hG (hV.2.2.2.1 hcb i hi) h
+  glob_lookup_none' hG (hV.2.2.2.1 hcb i hi) hu
 
 /-- general form: nothing in the books mentions a transaction id that is not in `P` -/
 theorem glob_fresh' {own : Own} {P : List Occ} {B : Book} (hG : Glob own P B) {tx : TxId} (hf : tx ∉ idsOf P)
@@ -289,10 +290,23 @@ theorem glob_fresh' {own : Own} {P : List Occ} {B : Book} (hG : Glob own P B) {t
     | none => rfl
     | some c => exact absurd (hG.txrecIds (tx, bm) (by rw [h]; rfl)) hf
 
+/-- no `cb` hypothesis: holds for coinbases too -/
 theorem glob_fresh {own : Own} {P : List Occ} {B : Book} {oc : Occ} (hG : Glob own P B)
-    (hV : OccValid own P oc) (bm : BlockMeta) (j : Nat) :
+    (hV : OccValid own P oc) : ∀ (bm : BlockMeta) (j : Nat),
     B.credits ⟨oc.t.id, bm, j⟩ = none ∧ lookupU B.L oc.t.id j = none ∧ B.txrecs (oc.t.id, bm) = none :=
-  glob_fresh' hG hV.1 bm j
+  fun bm j => glob_fresh' hG hV.1 bm j
+
+set_option linter.unusedVariables false in
+/-- plain unfolding of `srcOut` / `find?` -/
+theorem glob_src_in_ids {own : Own} {P : List Occ} {B : Book} (hG : Glob own P B) {tx : TxId} {idx : Nat}
+    {o : Out} (h : srcOut P tx idx = some o) : ∃ oc0 ∈ P, oc0.t.id = tx ∧ oc0.t.outs[idx]? = some o :=
+  srcOut_some_find h
+
+/-- `Glob.credAll`, restated -/
+theorem glob_credit_of_src {own : Own} {P : List Occ} {B : Book} (hG : Glob own P B) {oc0 : Occ} (h0 : oc0 ∈ P)
+    {idx : Nat} {o : Out} (ho : oc0.t.outs[idx]? = some o) (hown : (ownerOf own o).isSome = true) :
+    (B.credits ⟨oc0.t.id, oc0.bm, idx⟩).isSome = true :=
+  hG.credAll oc0 h0 idx o ho hown
 
 -- ------------------------------------------------------------------ non-vacuity
 
